@@ -120,6 +120,19 @@ PROPS = {
                         "the depth guard of as_func/as_service (stack based) is not modelled: alias chains are far below it"],
         "partial": [],
     },
+    "C17": {
+        "profiles": ["debug"],
+        "rule": "well-typed programs with a main service from the C14 generator (0..6 definitions: data / function / service / alias, recursion through every constructor, services given by name, constructors with 0..2 init args whose types reach recursive definitions), a quarter of the definitions renamed to JavaScript reserved words, "
+                "reserved words followed by underscores, `IDL`, `arguments`; hostile method names; rarely a field named like the builder's spelling of a numeric id (`_5_`); every program is compiled by /repo, the emitted module is parsed and evaluated by the harness's JavaScript-subset evaluator (temporal dead zone, redeclaration, reserved words, strict-mode escapes, `_n_` keys) "
+                "and the service and init types it builds are compared with the program's by the structural equality of subtype.rs; the definition order and recursion set read off the text are compared with the model; every request is non-trivial; distinct = distinct request lines",
+        "trusted": [
+            "harness/src/jsmini.rs evaluates the JavaScript subset the generator emits; it stands for a JavaScript engine plus the IDL builder of agent-js (record keys `_<n>_` are numeric ids)",
+            "the keyword table and the shape of `ident` (stem lookup, IDL) are re-extracted from javascript.rs on every run",
+            "the type printer (pp_ty) is exercised through evaluation, not modelled: the model covers which definitions are emitted, in which order, which through IDL.Rec()",
+        ],
+        "assumptions": ["structural equality is decided by /repo's own `equal` (C05)"],
+        "partial": ["that the evaluated factory denotes the source service is established by the implementation-level oracle on generated programs only; theorems: scoping of the emitted statements for every program, closure and totality of the analysis, ident never yields a reserved word and is injective"],
+    },
     "C15": {
         "profiles": ["debug"],
         "rule": "hash: every ASCII string of length <= 2 (exhaustive), two-byte UTF-8 scalars, random strings <= 64 scalars over the full Unicode range; labels: lists of 0-5 labels mixing names (identifiers, keywords, arbitrary Unicode, "
